@@ -467,3 +467,83 @@ def r15e(ctx):
     ctx.ok("examples/r15e_positive.py", "sa/examples/r15e_positive.py", "positive example flagged, cached_property twin is not")
     ctx.ok("expression methods without function-level caches", "", f"{n} methods scanned")
     ctx.floor("expression methods", n, 900)
+
+
+def _inplace_edited_classes(classes):
+    """classes one of whose methods (other than __init__ / __new__ / __setstate__) rebinds self._expr - plus everything that
+    shares instances with them (their bases and subclasses)"""
+    edited = []
+    for c in classes:
+        for name, node in c["methods"].items():
+            if name.split("@")[0] in ("__init__", "__new__", "__setstate__"):
+                continue
+            for a in ast.walk(node):
+                if isinstance(a, (ast.Assign, ast.AugAssign, ast.AnnAssign)):
+                    tgts = a.targets if isinstance(a, ast.Assign) else [a.target]
+                    if any(isinstance(t, ast.Attribute) and isinstance(t.value, ast.Name) and t.value.id == "self" and t.attr == "_expr" for t in tgts):
+                        edited.append(c)
+                        break
+            else:
+                continue
+            break
+    return edited
+
+
+def _cached_members(node):
+    out = []
+    for f in node.body:
+        if isinstance(f, (ast.FunctionDef, ast.AsyncFunctionDef)):
+            decs = [ast.unparse(d).split("(")[0] for d in f.decorator_list]
+            hit = [d for d in decs if d in ("functools.cached_property", "cached_property", "functools.lru_cache", "lru_cache", "functools.cache", "cache")]
+            if hit:
+                out.append((f, hit))
+    return out
+
+
+@rule(
+    "R15f",
+    ["C15", "C06", "C07"],
+    """NO CACHE ON AN IN-PLACE EDITED COLLECTION: the collection classes rebind self._expr in place (df["c"] = ..., df.index =
+    ..., df.columns = ...). A cached_property / lru_cache member of such a class (or of a class that shares instances with
+    it - its bases and subclasses) keeps describing the expression the collection had when the member was first read:
+    divisions, meta or npartitions reported afterwards depend on whether they were looked at before the edit.""",
+)
+def r15f(ctx):
+    model = ctx.model
+    infos = []
+    for c in model.classes:
+        if model.is_expr(c):
+            continue
+        infos.append({"cls": c, "methods": {f"{f.name}@{f.lineno}": f for f in c.node.body if isinstance(f, (ast.FunctionDef, ast.AsyncFunctionDef))}})
+    edited = [i["cls"] for i in _inplace_edited_classes(infos)]
+    ctx.floor("collection classes that rebind self._expr in place", len(edited), 2)
+    family = []
+    for c in model.classes:
+        if model.is_expr(c):
+            continue
+        if any(e in c.mro or c in e.mro for e in edited):
+            family.append(c)
+    n = 0
+    for c in family:
+        n += 1
+        hits = _cached_members(c.node)
+        cid = f"{c.qual}:cached-members"
+        if hits:
+            f, dec = hits[0]
+            ctx.bad(f"{c.qual}.{f.name}:cached-on-mutable-collection", c.module.loc(f), f"{c.qual}.{f.name} is {dec[0]} on a collection whose expression is replaced in place ({', '.join(sorted(e.name for e in edited if e in c.mro or c in e.mro))} assign self._expr): after such an edit it still answers for the old expression")
+        else:
+            ctx.ok(cid, c.loc, "no cached members")
+    import os
+
+    ex = os.path.join(os.path.dirname(os.path.dirname(__file__)), "examples", "r15f_positive.py")
+    tree = ast.parse(open(ex).read())
+    for node in ast.walk(tree):
+        for ch in ast.iter_child_nodes(node):
+            ch._parent = node  # type: ignore[attr-defined]
+    k = next(x for x in tree.body if isinstance(x, ast.ClassDef))
+    info = [{"cls": k, "methods": {f.name: f for f in k.body if isinstance(f, ast.FunctionDef)}}]
+    flagged = {f.name for f, _ in _cached_members(k)} if _inplace_edited_classes(info) else set()
+    if flagged != {"_schema"}:
+        raise AnalysisError(f"R15f self-check failed: positive example flagged {sorted(flagged)}, expected ['_schema']")
+    ctx.ok("examples/r15f_positive.py", "sa/examples/r15f_positive.py", "positive example flagged, plain-property twin is not")
+    ctx.floor("classes sharing instances with an in-place edited collection", n, 4)
